@@ -324,15 +324,14 @@ Checkable::ProcessingResult Checkable::ProcessCheckResult(const CheckResult::Ptr
 	if (is_volatile && IsStateOK(old_state) && IsStateOK(new_state))
 		send_notification = false; /* Don't send notifications for volatile OK -> OK changes. */
 
-	olock.Unlock();
-
-	if (remove_acknowledgement_comments)
-		RemoveAckComments(String(), cr->GetExecutionEnd());
+	/* The state type this result leads to. It must not be loaded again once the lock has been released:
+	 * a result processed concurrently for the same checkable may have changed it by then. */
+	StateType new_stateType = GetStateType();
 
 	Dictionary::Ptr vars_after = new Dictionary({
 		{ "state", new_state },
-		{ "state_type", GetStateType() },
-		{ "attempt", GetCheckAttempt() },
+		{ "state_type", new_stateType },
+		{ "attempt", attempt },
 		{ "reachable", reachable }
 	});
 
@@ -341,8 +340,9 @@ Checkable::ProcessingResult Checkable::ProcessCheckResult(const CheckResult::Ptr
 
 	cr->SetVarsAfter(vars_after);
 
-	olock.Lock();
-
+	/* Store the result in the same critical section as the state: the check for outdated results above
+	 * compares with the last check result, so a concurrently processed result must not see the new state
+	 * together with the previous result. */
 	if (service) {
 		SetLastCheckResult(cr);
 	} else {
@@ -391,6 +391,9 @@ Checkable::ProcessingResult Checkable::ProcessCheckResult(const CheckResult::Ptr
 	}
 
 	olock.Unlock();
+
+	if (remove_acknowledgement_comments)
+		RemoveAckComments(String(), cr->GetExecutionEnd());
 
 #ifdef I2_DEBUG /* I2_DEBUG */
 	Log(LogDebug, "Checkable")
@@ -447,13 +450,13 @@ Checkable::ProcessingResult Checkable::ProcessCheckResult(const CheckResult::Ptr
 			<< "State Change: Checkable '" << GetName() << "' hard state change from " << old_state_str << " to " << new_state_str << " detected." << (is_volatile ? " Checkable is volatile." : "");
 	}
 	/* Whether a state change happened or the state type is SOFT (must be logged too). */
-	else if (stateChange || GetStateType() == StateTypeSoft) {
+	else if (stateChange || new_stateType == StateTypeSoft) {
 		OnStateChange(this, cr, StateTypeSoft, origin);
 		Log(LogNotice, "Checkable")
 			<< "State Change: Checkable '" << GetName() << "' soft state change from " << old_state_str << " to " << new_state_str << " detected.";
 	}
 
-	if (GetStateType() == StateTypeSoft || hardChange || recovery ||
+	if (new_stateType == StateTypeSoft || hardChange || recovery ||
 		(is_volatile && !(IsStateOK(old_state) && IsStateOK(new_state))))
 		ExecuteEventHandler();
 
